@@ -2,6 +2,8 @@
 """prints the sub-agent prompt for one property id (only the property text + worktree; nothing from /verif's machinery)"""
 import json, sys
 pid = sys.argv[1]
+k0 = int(sys.argv[2]) if len(sys.argv) > 2 else 1
+avoid = sys.argv[3] if len(sys.argv) > 3 else ''
 p = [json.loads(l) for l in open('/verif/properties.jsonl') if json.loads(l)['id'] == pid][0]
 print(f"""You are helping test a verification effort for the Python package usnistgov/atomman (NIST atomistic toolkit).
 You have your own scratch git worktree of the repository at /tmp/wt_{pid} (compiled Cython extensions already copied in; Cython and gcc are present if you need to rebuild a .pyx with `cd /tmp/wt_{pid} && /venv/bin/python setup.py build_ext --inplace`).
@@ -18,11 +20,12 @@ Here is a semantic property of atomman that is supposed to hold for ALL inputs:
 Your task: produce TWO independent, realistic source changes to atomman (each a small patch, the kind of bug a maintainer could plausibly introduce in a refactor or "optimisation") that each BREAK this property while the package still imports and the existing test suite still passes.
 Requirements for each change:
  * It must need something specific to manifest: an unusual input (e.g. a tilted cell, non-zero origin, negative index, particular periodicity setting, a particular dimension or array shape, a rarely used option or branch), a multi-step sequence of operations, or two cooperating sites that each look fine alone. NOT something every ordinary call would expose at once. Prefer the two changes to be in different functions/files and of different character.
- * The existing tests must still pass with the change: run `cd /tmp/wt_{pid} && PYTHONPATH=/tmp/wt_{pid} /venv/bin/python -m pytest -q -p no:cacheprovider --timeout=900 -x tests 2>&1 | tail -5`. (On the unmodified tree exactly 3 tests in tests/dump_load/test_atom_data.py fail: test_atomic_imageflags, test_atomic_no_imageflags, test_goodfile. Those are expected failures; everything else must pass.)
+ * The existing tests must still pass with the change: run `cd /tmp/wt_{pid} && PYTHONPATH=/tmp/wt_{pid} /venv/bin/python -m pytest -q -p no:cacheprovider --timeout=900 -x tests 2>&1 | tail -5`. (On the unmodified tree all tests pass: 86 passed, 9 skipped.)
  * Write a demonstration program that exits 0 on the unmodified tree and exits non-zero (with a message saying what is wrong) with the change applied. It must import atomman from the current directory / PYTHONPATH, and check the property clause directly (e.g. compare with an independently computed expected value), deterministic, under 60 s.
-Deliverables, for k = 1, 2:
+Deliverables, for k = {k0}, {k0 + 1}:
    /tmp/seed_out/{pid}/{pid}_k/patch.diff   (output of `git -C /tmp/wt_{pid} diff` for that change alone, applying cleanly with `git apply` to the unmodified tree)
    /tmp/seed_out/{pid}/{pid}_k/demo.py
    /tmp/seed_out/{pid}/{pid}_k/notes.md     (which clause of the property it breaks, what it needs in order to manifest, what you ran and the observed outputs with and without the change)
 Make each change alone starting from the clean tree (`git -C /tmp/wt_{pid} checkout -- .` between them), and leave the worktree clean (no applied change) when you finish. Verify everything yourself (tests pass with the change; demo passes without and fails with). If a .pyx file is changed, rebuild the extension for your verification and restore/rebuild it afterwards so the worktree is left equivalent to the clean tree.
+{('Earlier changes that were already produced and must NOT be repeated (choose different functions or a different kind of mistake): ' + avoid) if avoid else ''}
 Finish with a short report: for each change one paragraph (file/function, what breaks, how it manifests).""")
